@@ -1,13 +1,18 @@
 /-
 C01 — Results do not depend on the container format; inputs are never modified.
 
-(1) Containers: `sparse.csr_matrix(x)` (= `check_format`) denotes the same matrix for CSR (unsorted indices,
-    duplicates), CSC, COO (duplicates add), LIL and dense input; containers that denote the same matrix have the
-    same canonical CSR form; the stored order of a row's entries does not change what it denotes.
-    Model: `SkNet/Model/Container.lean`, tied to scipy / check_format by the `c01.canon` run lines.
-(2) Ownership: a program of `SkNet/Model/Ownership.lean` that passes the check `safeWith` never writes a
-    caller's cell it does not declare, in any execution order, for any aliasing choice (`ownership_sound`).
-    The programs are regenerated from the working tree on every run (tools/translate/effects.py ->
+(1) Ingestion: `sparse.csr_matrix(x)` (= `check_format`) denotes the same matrix for CSR (unsorted indices,
+    duplicates), CSC, COO (duplicates add), LIL and dense input, in exact arithmetic (`denote_checkFormat`) and in
+    the arithmetic of the dtype — bool: or, intN / uintN: wrap-around (`denoteD_checkFormatD`, `denoteD_int_exact`);
+    the stored order of a row's entries does not change what it denotes. Model: `SkNet/Model/Container.lean`, tied to
+    scipy / check_format by the `c01.tocsr / c01.canon / c01.check` run lines. (`canon` is defined from the
+    denotation: `canon_of_denote` and `sameGraph_canon` are corollaries of that definition, not results about scipy.)
+(2) Consumers: `RespectsDenote f` — stored forms of one matrix give `f` the same output — for the consumers that have
+    Lean models in other property files: proved for those reading the summed values (C11, C14 up to the emptiness
+    test), proved under a hypothesis and refuted without it for the C10 edge predicate and the C02 WL adjacency lists.
+(3) Ownership: a program of `SkNet/Model/Ownership.lean` whose certificate passes `safeWith` never writes a caller's
+    cell it does not declare, in any execution order, for any aliasing choice (`ownership_sound`, `fn_ok_sound`).
+    The programs and certificates are regenerated from the working tree on every run (tools/translate/effects.py ->
     `SkNet/Generated/Effects.lean`) and `Fn.ok` is decided for each of them (`Generated/EffectsCheck.lean`).
 -/
 import SkNet.Lemmas.Container
@@ -76,6 +81,55 @@ theorem denote_checkFormat (c : Container) (i j : Nat) (hi : i < c.nRow) (hj : j
       (by intro j hc; simpa using hc) nCol j
     simp only [hj, if_true] at h
     exact h
+
+/-- **checkFormat_WF** (the second half of DESIGN's `denote_checkFormat`): the CSR matrix built from a well-formed
+container stores only columns inside the shape. -/
+theorem checkFormat_WF (dt : DType) (c : Container) (h : c.WF = true) : (checkFormatD dt c).WF = true := by
+  cases c with
+  | csr nCol rows => exact h
+  | lil nCol rows => exact h
+  | csc nRow cols =>
+    simp only [checkFormatD, toCsrRowsD, toCsrRows, Container.WF, Container.nCol]
+    apply List.all_eq_true.2
+    intro r hr
+    simp only [tab, List.mem_map, List.mem_range] at hr
+    obtain ⟨i, _, rfl⟩ := hr
+    apply List.all_eq_true.2
+    intro p hp
+    obtain ⟨j, hj, hp⟩ := List.mem_flatMap.1 hp
+    obtain ⟨q, _, rfl⟩ := List.mem_map.1 hp
+    simpa using List.mem_range.1 hj
+  | coo nRow nCol es =>
+    simp only [checkFormatD, toCsrRowsD, Container.WF, Container.nCol]
+    apply List.all_eq_true.2
+    intro r hr
+    simp only [tab, List.mem_map, List.mem_range] at hr
+    obtain ⟨i, _, rfl⟩ := hr
+    apply List.all_eq_true.2
+    intro p hp
+    obtain ⟨j, hj, hp⟩ := List.mem_filterMap.1 hp
+    split at hp
+    · cases hp
+    · injection hp with hp; subst hp; simpa using List.mem_range.1 hj
+  | dense nCol rows =>
+    simp only [checkFormatD, toCsrRowsD, toCsrRows, Container.WF, Container.nCol]
+    apply List.all_eq_true.2
+    intro r hr
+    obtain ⟨r0, _, rfl⟩ := List.mem_map.1 hr
+    apply List.all_eq_true.2
+    intro p hp
+    obtain ⟨j, hj, hp⟩ := List.mem_filterMap.1 hp
+    split at hp
+    · injection hp with hp; subst hp; simpa using List.mem_range.1 hj
+    · cases hp
+
+/-- `check_format` refuses exactly the matrices that store nothing (unless `allow_empty`), and otherwise returns the
+CSR matrix of `denoteD_checkFormatD`. -/
+theorem checkFormatE_spec (dt : DType) (allowEmpty : Bool) (c : Container) :
+    checkFormatE dt allowEmpty c =
+      if allowEmpty = false ∧ storedCount (toCsrRowsD dt c) = 0 then .error () else .ok (checkFormatD dt c) := by
+  unfold checkFormatE
+  cases allowEmpty <;> by_cases h : storedCount (toCsrRowsD dt c) = 0 <;> simp [h]
 
 /-- the canonical form is a function of the denotation alone -/
 theorem canon_of_denote (nCol : Nat) (rows rows' : Rows) (hlen : rows.length = rows'.length)
@@ -276,7 +330,7 @@ theorem respects_denote_coreDecomposition :
   rw [valOf_ext nCol rows rows' hw hw' hlen h, hlen]
 
 /-- number of stored entries (`nnz`): the one thing `check_format` reads that is not the denotation -/
-def storedNnz (rows : Rows) : Nat := (rows.map List.length).foldl (· + ·) 0
+abbrev storedNnz (rows : Rows) : Nat := storedCount rows
 
 /-- C14: `Diffusion.fit` / `Dirichlet.fit` (model of `Model/Heat.lean`: get_adjacency_values, normalisation, the
 iteration) read the values through `valOf` and, in `check_format`, whether anything is stored at all. -/
